@@ -82,7 +82,7 @@ T5 = HDR + [
 
 def apply_static_and_voyage(fc):
     std_message(fc, 't5', 'StaticAndVoyageRelatedData', T5, {'C14': ['r is Ok <==> n >= 302']}, fn='parse_message', signed=())
-    fc.replace_in_re('parse_message', r'\|(\w+)\| \{(?=\s*\1 as f32 / 10\.0)', r'|\1: u8| -> (o: f32) ensures draught_rel(\1, o), { ' + F32)
+    fc.replace_in_re('parse_message', r'\|(\w+)\| \{(?=\s*\1 as f32\b)', r'|\1: u8| -> (o: f32) ensures draught_rel(\1, o) /*@C10*/, { ' + F32)
 
 
 # ---------------------------------------------------------------------------------------------- 6 / 8 / 17 (C15)
@@ -438,9 +438,13 @@ pub open spec fn coord27_post(t: u8, sentinel: i32, x: i32, o: Option<f32>) -> b
 }
 '''
     std_message(fc, 't27', 'LongRangeAisBroadcastMessage', T27, {'C14': ['r is Ok <==> n >= 96']}, signed=(18, 17), guard='fld(o, 0, 6) == 27', more_spec=more)
-    fc.replace_in_re('parse_base', r'\|(\w+)\| \{(?=\s*if \1 == 108_600)', r'|\1: i32| -> (o: Option<f32>) requires -131072 <= \1 < 131072, ensures coord27_post(message_type, 108_600, \1, o), { ' + F32)
-    fc.replace_in_re('parse_base', r'\|(\w+)\| \{(?=\s*if \1 == 54_600)', r'|\1: i32| -> (o: Option<f32>) requires -65536 <= \1 < 65536, ensures coord27_post(message_type, 54_600, \1, o), { ' + F32)
-    fc.replace_in_re('parse_base', r'\.map\(\|(\w+)\| \{', r'.map(|\1: f32| -> (w: f32) ensures w == (if message_type == 27 { \1.mul_spec(1000.0f32) } else { \1 }), {', occ='all')
+    # the anchor captures the constant the code compares with and hands it to the helper contract (shape from the code); that the constant is
+    # the 'not available' code is said by t27_C11 alone.  (Before round 5 the anchor spelled the constants out, so that a changed constant
+    # -- C11-v11-m2 -- lost the anchor instead of failing t27_C11.)  First match: longitude (18 bits), second: latitude (17 bits).
+    COORD_RE = r'\|(\w+)\| \{(?=\s*if \1 == (-?[\d_]+) \{)'
+    fc.replace_in_re('parse_base', COORD_RE, r'|\1: i32| -> (o: Option<f32>) requires -131072 <= \1 < 131072, ensures coord27_post(message_type, \2, \1, o) /*@C10*/ /*@C11*/, { ' + F32, occ=0)
+    fc.replace_in_re('parse_base', COORD_RE, r'|\1: i32| -> (o: Option<f32>) requires -65536 <= \1 < 65536, ensures coord27_post(message_type, \2, \1, o) /*@C10*/ /*@C11*/, { ' + F32, occ=1)
+    fc.replace_in_re('parse_base', r'\.map\(\|(\w+)\| \{', r'.map(|\1: f32| -> (w: f32) ensures w == (if message_type == 27 { \1.mul_spec(1000.0f32) } else { \1 }) /*@C10*/, {', occ='all')
     fc.contract('parse_speed_over_ground_62', ensures=['sog27_rel(data, r)'], tags=['C10', 'C11'])
     fc.contract('parse_cog_511', ensures=['cog27_rel(data, r)'], tags=['C10', 'C11'])
 
